@@ -93,6 +93,12 @@ func unixMilliToTime(unixMilli int64) time.Time {
 }
 
 func ParseCron(cronExp string) (cron.Schedule, error) {
+	// the parser slices a "TZ=" / "CRON_TZ=" prefix off at the first space
+	// and panics (slice bounds out of range) when the spec contains none
+	if (strings.HasPrefix(cronExp, "TZ=") || strings.HasPrefix(cronExp, "CRON_TZ=")) && !strings.Contains(cronExp, " ") {
+		return nil, errors.New("invalid cron expression: missing fields after the time zone")
+	}
+
 	return cron.NewParser(cron.SecondOptional | cron.Minute | cron.Hour | cron.Dom | cron.Month | cron.Dow | cron.Descriptor).Parse(cronExp)
 }
 
